@@ -179,3 +179,75 @@ pub fn pin_tr() -> (usize, Vec<String>) {
     }
     (n, bad)
 }
+
+// ------------------------------------------------------------------ independent hash transcription
+
+
+/// `refhash` (the independent H1/H3/H4/H5 transcription) against the RFC 9591 vectors of the
+/// five suites, using nothing of the library: nonce = H3(randomness || share), binding factor =
+/// H1(binding_factor_input), and the two middle pieces of binding_factor_input are H4(message)
+/// and H5(encoded commitment list).
+pub fn pin_refhash() -> (usize, Vec<String>) {
+    let mut n = 0usize;
+    let mut bad = vec![];
+    // (crate dir, suite name for refhash, element length, hash length, scalar length, little-endian identifiers)
+    let suites = [
+        ("frost-ristretto255", 32usize, 64usize, 32usize, true),
+        ("frost-ed25519", 32, 64, 32, true),
+        ("frost-ed448", 57, 114, 57, true),
+        ("frost-p256", 33, 32, 32, false),
+        ("frost-secp256k1", 33, 32, 32, false),
+    ];
+    for (dir, elen, hlen, slen, le) in suites {
+        for f in ["vectors.json", "vectors-big-identifier.json"] {
+            let path = format!("/repo/{dir}/tests/helpers/{f}");
+            let Some(v) = std::fs::read_to_string(&path).ok().and_then(|s| serde_json::from_str::<serde_json::Value>(&s).ok()) else { continue };
+            let s = |x: &serde_json::Value| x.as_str().unwrap_or("").to_string();
+            let msg = unhex(&s(&v["inputs"]["message"]));
+            let mut enc = vec![];
+            let outs = v["round_one_outputs"]["outputs"].as_array().cloned().unwrap_or_default();
+            for o in outs.iter() {
+                let id = o["identifier"].as_u64().unwrap_or(0);
+                let mut idb = vec![0u8; slen];
+                for k in 0..8 {
+                    let b = (id >> (8 * k)) as u8;
+                    if le {
+                        idb[k] = b;
+                    } else {
+                        idb[slen - 1 - k] = b;
+                    }
+                }
+                enc.extend_from_slice(&idb);
+                enc.extend_from_slice(&unhex(&s(&o["hiding_nonce_commitment"])));
+                enc.extend_from_slice(&unhex(&s(&o["binding_nonce_commitment"])));
+            }
+            for o in outs.iter() {
+                let id = o["identifier"].as_u64().unwrap_or(0);
+                let share = v["inputs"]["participant_shares"].as_array().unwrap().iter().find(|p| p["identifier"].as_u64() == Some(id)).map(|p| unhex(&s(&p["participant_share"]))).unwrap_or_default();
+                for (r, want) in [("hiding_nonce_randomness", "hiding_nonce"), ("binding_nonce_randomness", "binding_nonce")] {
+                    let mut pre = unhex(&s(&o[r]));
+                    pre.extend_from_slice(&share);
+                    n += 1;
+                    if crate::refhash::ref_hash(dir, 3, &pre) != Some(unhex(&s(&o[want]))) {
+                        bad.push(format!("{dir}/{f}: H3 for {want} of participant {id}"));
+                    }
+                }
+                let bfi = unhex(&s(&o["binding_factor_input"]));
+                n += 1;
+                if crate::refhash::ref_hash(dir, 1, &bfi) != Some(unhex(&s(&o["binding_factor"]))) {
+                    bad.push(format!("{dir}/{f}: H1 for the binding factor of participant {id}"));
+                }
+                if bfi.len() >= elen + 2 * hlen {
+                    n += 2;
+                    if crate::refhash::ref_hash(dir, 4, &msg).as_deref() != Some(&bfi[elen..elen + hlen]) {
+                        bad.push(format!("{dir}/{f}: H4(message)"));
+                    }
+                    if crate::refhash::ref_hash(dir, 5, &enc).as_deref() != Some(&bfi[elen + hlen..elen + 2 * hlen]) {
+                        bad.push(format!("{dir}/{f}: H5(encoded commitment list)"));
+                    }
+                }
+            }
+        }
+    }
+    (n, bad)
+}
